@@ -15,7 +15,7 @@ import (
 func propC17() *fw.Prop {
 	return &fw.Prop{
 		ID: "C17", Level: "exploration",
-		Rule:        "implication monitor over (check, run) pairs of the SAME text: well-typed generated scripts (which check clean and run successfully on generous balances — the control) receive one type-breaking edit (literal of another type in any typed position incl. inside monetary literals and + / − operands, mis-declared variable with a value of its new declared type, a declared variable written in a later position of another type, the edited script placed after 249..1001 warning-drawing statements, removed declaration, wrong arity, unknown or misplaced function, allotment / unbounded / @world source under send-all, ill-typed arithmetic) and are then checked and executed with values of the declared types. Violation: no error-severity diagnostic but the run fails with a type error, unbound variable/function, bad arity or unknown type; or no diagnostic at all but the run fails on the shape of a send-all source. Distinct = (edit kind, position class, checker silent / not).",
+		Rule:        "implication monitor over (check, run) pairs of the SAME text: well-typed generated scripts (which check clean and run successfully on generous balances — the control) receive one type-breaking edit (literal of another type in any typed position incl. inside monetary literals and + / − operands, mis-declared variable with a value of its new declared type, a declared variable written in a later position of another type, the edited script placed after 249..1001 warning-drawing statements, removed declaration, wrong arity, unknown or misplaced function, allotment / unbounded / @world source under send-all, ill-typed arithmetic) and are then checked and executed with values of the declared types. Violation: no error-severity diagnostic but the run fails with a type error, unbound variable/function, bad arity or unknown type; or no diagnostic at all but the run fails on the shape of a send-all source. Distinct = (edit kind, position class, checker silent / not). Added later: an origin function whose return type is not the declared type (balance / overdraft with its flag) used as declared; literals of every magnitude; ill-typed + and − in any-typed slots.",
 		Assumptions: []string{trustedBase},
 		Require:     []string{"edits_checked", "edits_flagged_by_checker", "edits_checker_silent", "edits_failing_statically_at_run_time", "edit_infix", "edit_origin-forward-reference", "edit_declared-variable-in-wrong-slot", "edits_after_many_warnings"},
 		Run:         runC17,
